@@ -192,23 +192,35 @@ def run_config_in_child(c, case, res):
     """The library was imported (and used) in this process; the compared call is the FIRST call made in a forked child of it, which
     seeds the generators itself - a fork-based parameter sweep."""
     import multiprocessing
+    import threading
+    import time
     ctx = multiprocessing.get_context("fork")
-    a, b = ctx.Pipe(duplex=False)
-    p = ctx.Process(target=_child_main, args=(b, c, case["K"]))
-    p.start()
-    b.close()
     got = None
-    if a.poll(600):
-        try:
-            got = a.recv()
-        except EOFError:
-            got = None
-    p.join(10)
-    if p.is_alive():
-        p.kill()
-        p.join(5)
+    for attempt in range(2):
+        # fork from a quiescent parent: helper threads of earlier pools have ended (a lock held by another thread at the moment of the
+        # fork would stay locked in the child for ever - a property of fork, not of the library)
+        t_end = time.time() + 3.0
+        while threading.active_count() > 1 and time.time() < t_end:
+            time.sleep(0.02)
+        a, b = ctx.Pipe(duplex=False)
+        p = ctx.Process(target=_child_main, args=(b, c, case["K"]))
+        p.start()
+        b.close()
+        if a.poll(90 if attempt == 0 else 150):
+            try:
+                got = a.recv()
+            except EOFError:
+                got = None
+        p.join(10)
+        if p.is_alive():
+            p.kill()
+            p.join(5)
+        a.close()
+        if got is not None:
+            break
+        res.count("forked_child_runs_repeated_after_silence")
     if got is None:
-        res.inconclusive.append("the forked child running configuration did not report within 600 s")
+        res.inconclusive.append("the forked child running configuration did not report within 90 s and, repeated, within 150 s")
         return "EXC:nochild", [], _Stub()
     res.count("configurations_run_as_first_call_of_a_forked_child")
     stub = _Stub()
